@@ -94,7 +94,7 @@ def parseSetup? (toks : List String) : Option Setup := do
 
 def isOp (t : String) : Bool :=
   t.startsWith "tx:" || t.startsWith "fx:" || t.startsWith "sw:" || t.startsWith "pl:" || t == "ir"
-    || t.startsWith "setant:" || t.startsWith "gen:" || t.startsWith "reject:"
+    || t.startsWith "setant:" || t.startsWith "gen:" || t.startsWith "reject:" || t == "q"
 
 def showE (e : PyErr) : String := "error:" ++ toString e
 
@@ -115,6 +115,7 @@ def parseSuOp? (op : String) : Option (SuOp GRat) :=
   else if op.startsWith "gen:" then ((op.drop 4).toString.toNat?).map .gen
   else if op == "reject:ValueError" then some (.rejected .ValueError)
   else if op == "reject:TypeError" then some (.rejected .TypeError)
+  else if op == "q" then some .query
   else none
 
 /-- run SuChannel ops (a TdlChannel is a SuChannel that never gets a path loss);
@@ -140,6 +141,8 @@ def showMuOut (y : List (List (List GRat))) : String := "y=" ++ showList showSig
 def parseMuOp? (op : String) : Option (MuOp GRat) :=
   if op == "reject:ValueError" then some (.rejected .ValueError)
   else if op == "reject:TypeError" then some (.rejected .TypeError)
+  else if op == "q" then some .query
+  else if op == "pl:none" then some .clearPathloss
   else if op.startsWith "sw:" then some (.setSwitched (op == "sw:1"))
   else if op.startsWith "pl:" then (parseSig? (op.drop 3).toString).map .setPathloss
   else if op.startsWith "tx:" then (parseMuSig? (op.drop 3).toString).map .tx
